@@ -176,7 +176,7 @@ func main() {
 				}
 				// lockstep creations and removals
 				n := 1 + r.Intn(200)
-				var created []ecs.Entity
+				var created, removedLockstep []ecs.Entity
 				if checkpoint {
 					n = 0 // the source has moved on; lockstep comparison applies to immediate loads only
 				}
@@ -200,6 +200,7 @@ func main() {
 							j := r.Intn(len(created))
 							e := created[j]
 							created = append(created[:j], created[j+1:]...)
+							removedLockstep = append(removedLockstep, e)
 							p1 := try(func() { d.W.RemoveEntity(e) })
 							p2 := try(func() { w2.RemoveEntity(e) })
 							if p1 != nil || p2 != nil {
@@ -221,6 +222,42 @@ func main() {
 					if !w2.Alive(e) || !d.W.Alive(e) {
 						msgs = append(msgs, fmt.Sprintf("entity %v created after load is not alive in both worlds", e))
 						break
+					}
+				}
+				// liveness of every handle known so far (as of dump time, removed in lockstep) agrees between the worlds,
+				// and the loaded world rejects the dead ones like any world does (C10)
+				if !checkpoint && len(msgs) == 0 {
+					known := append([]ecs.Entity{}, removedLockstep...)
+					for _, s := range atDump {
+						known = append(known, s.h)
+					}
+					usedNow := w2.Stats().Entities.Used
+					for _, h := range known {
+						res.Counters["handles-compared"]++
+						if a, b := d.W.Alive(h), w2.Alive(h); a != b {
+							msgs = append(msgs, fmt.Sprintf("after lockstep operations handle %v: source Alive=%v, loaded Alive=%v", h, a, b))
+							break
+						}
+						if d.W.Alive(h) {
+							continue
+						}
+						res.Counters["stale-handles-offered-to-loaded-world"]++
+						for name, call := range map[string]func(){
+							"RemoveEntity": func() { w2.RemoveEntity(h) },
+							"CopyEntity":   func() { w2.CopyEntity(h) },
+							"Unsafe.IDs":   func() { w2.Unsafe().IDs(h) },
+							"Unsafe.Add":   func() { w2.Unsafe().Add(h, ecs.ComponentID[serComp](w2)) },
+						} {
+							if try(call) == nil {
+								msgs = append(msgs, fmt.Sprintf("loaded world: %s(%v) with a dead handle did not panic", name, h))
+							}
+						}
+						if len(msgs) > 0 {
+							break
+						}
+					}
+					if n := w2.Stats().Entities.Used; n != usedNow {
+						msgs = append(msgs, fmt.Sprintf("rejected calls changed the loaded world's alive count from %d to %d", usedNow, n))
 					}
 				}
 			}
@@ -258,6 +295,8 @@ func main() {
 		fmt.Println("VIOLATION-CASE", v["case"], v["violations"])
 	}
 }
+
+type serComp struct{ V int64 }
 
 func codecs(seed uint64, pairs int, cnt map[string]int64) []string {
 	var msgs []string
